@@ -4,6 +4,7 @@ import Dashu.Model.Conv.Prim
 import Dashu.Model.Conv.Ratio
 import Dashu.Model.Conv.Exact
 import Dashu.Model.Conv.Base
+import Dashu.Model.Conv.ToFloat
 /-
   Driver of group `conv` (C06).  For every op it prints what the property REQUIRES (the spec);
   where a mirrored model exists it is evaluated beside the spec and a difference is reported as
@@ -274,12 +275,22 @@ def adjOfFlag (neg : Bool) : Flag → Adj
   | .pos => if neg then .noOp else .addOne
   | .neg => if neg then .subOne else .noOp
 
-def floatToIeeeOp (ty : String) (F : Ieee) (B : Nat) (mode : Mode) (s : Int) (e : Int) : String :=
+/-- extreme exponents (round 5, E1): a value `s·B^e` with `e > 8192` overflows every IEEE format and one with
+    `e < -(2·bit_len s + 8192)` is below a quarter of the least subnormal, whatever `B ≥ 2`; the required result
+    (overflow to ±∞ / rounding of a tiny value under the mode, flags) does not depend on how far beyond — the
+    specification is evaluated at the clamped exponent so that no power `B^|e|` of an `isize`-sized exponent is built -/
+def clampExp (s : Int) (e : Int) : Int :=
+  let lo : Int := -((2 * bitLen s.natAbs + 8192 : Nat) : Int)
+  if e > 8192 then 8192 else if e < lo then lo else e
+
+def floatToIeeeOp (ty : String) (F : Ieee) (B : Nat) (mode : Mode) (s : Int) (e0 : Int) : String :=
+  let e := clampExp s e0
   let (num, den) := floatAsRat B s e
   let r := ieeeRoundRat F mode num den
   ok (fbits ty r.1 ++ " " ++ (adjOfFlag (decide (s < 0)) r.2).name)
 
-def floatToIntOp (B : Nat) (mode : Mode) (s : Int) (e : Int) : String :=
+def floatToIntOp (B : Nat) (mode : Mode) (s : Int) (e0 : Int) : String :=
+  let e := if e0 < 0 then clampExp s e0 else e0      -- a tiny value rounds to 0 / ±1 by the mode alone
   let (num, den) := floatAsRat B s e
   let (v, adj) := roundIntMode mode num den
   ok (intToHex v ++ " " ++ adj.name)
@@ -306,8 +317,8 @@ def floatFromIeeeOp (d : DecConsts) (b : Nat) : String :=
     let (s, e) := normalizeRepr 2 man exp
     ok (intToHex s ++ " " ++ decStr e ++ " " ++ decStr (bitLen man.natAbs))
 
-def floatTryToIeeeOp (ty : String) (F : Ieee) (s : Int) (e : Int) : String :=
-  let r := ieeeRound F s e
+def floatTryToIeeeOp (ty : String) (F : Ieee) (s : Int) (e0 : Int) : String :=
+  let r := ieeeRound F s (clampExp s e0)
   if r.2 = .exact then ok (fbits ty r.1)
   else if r.1 % F.signBit = F.infBits then ok (errStr .outOfBounds)
   else ok (errStr .lossOfPrecision)
@@ -366,8 +377,56 @@ def parseBase (s : String) : Option Nat := do
   let b ← parseDecNat s
   if b = 2 ∨ b = 10 ∨ b = 16 ∨ b = 3 then some b else none
 
+-- ------------------------------------------------------------------ round 5: `Repr::to_float`, `From<Repr> for FBig` mirrored
+
+/-- `Repr::reduce2` (`Relaxed::from_parts`): only the common power of two is removed; zero is `0/1` -/
+def reduce2 (num : Int) (den : Nat) : Int × Nat :=
+  if num = 0 then (0, 1) else
+  let tz (n : Nat) : Nat := (List.range (Nat.log2 n + 1)).foldl (fun acc i => if acc = i ∧ n % 2 ^ (i + 1) = 0 then i + 1 else acc) 0
+  let z := min (tz num.natAbs) (tz den)
+  (num / ((2 ^ z : Nat) : Int), den / 2 ^ z)
+
+/-- the stored parts: `relaxed = false` ⇒ `RBig` (lowest terms), `true` ⇒ `Relaxed` -/
+def storedParts (relaxed : Bool) (num : Int) (den : Nat) : Int × Nat :=
+  if relaxed then reduce2 num den else (let (n, d) := gcdReduce num den; if n = 0 then (0, 1) else (n, d))
+
+/-- the mirrored `Repr::to_float` (code as it is, including its second rounding and its panics).  `none` (not
+    driven) when the shifted numerator would need memory proportional to the precision (2^22 < shift < 2^64 − 64):
+    neither side is run there; beyond that the allocation is refused up front (`AllocTooMuch`, transcribed). -/
+def ratToFloatCodeOp (B : Nat) (mode : Mode) (relaxed : Bool) (num0 : Int) (den0 : Nat) (prec : Nat) : Option String :=
+  let (num, den) := storedParts relaxed num0 den0
+  let total := prec + ilogB B den
+  let sh := total - ilogB B num
+  if prec ≠ 0 ∧ num ≠ 0 ∧ total < 2 ^ 64 ∧ sh > 2 ^ 22 then
+    (if sh ≥ 2 ^ 64 - 64 then some (panic PanicKind.allocTooMuch.name) else none)
+  else
+    match ratToFloat B (floatModeOf mode) Float.coarseNone num den prec with
+    | .error k => some (panic k.name)
+    | .ok (v, fl) => some (ok (intToHex v.signif ++ " " ++ decStr v.exp ++ " " ++ decStr prec ++ " " ++ adjName fl))
+
+/-- the mirrored `From<Repr> for FBig<R, B>` -/
+def fbigFromRatCodeOp (B : Nat) (mode : Mode) (relaxed : Bool) (num0 : Int) (den0 : Nat) : String :=
+  let (num, den) := storedParts relaxed num0 den0
+  match fbigFromRat B (floatModeOf mode) num den with
+  | .error k => panic k.name
+  | .ok (v, p, _) => ok (intToHex v.signif ++ " " ++ decStr v.exp ++ " " ++ decStr p)
+
 def dispatch : Dispatch := fun W op args =>
   match op, args with
+  | "r.to_float.code", [bs, ms, a, b, pr] => do
+    let B ← parseBase bs; let mode ← Mode.parse ms
+    let n ← parseInt a; let d ← parseNat b; let prec ← parseDecNat pr
+    if d = 0 ∨ prec ≥ 2 ^ 64 then none else ratToFloatCodeOp B mode false n d prec
+  | "rx.to_float.code", [bs, ms, a, b, pr] => do
+    let B ← parseBase bs; let mode ← Mode.parse ms
+    let n ← parseInt a; let d ← parseNat b; let prec ← parseDecNat pr
+    if d = 0 ∨ prec ≥ 2 ^ 64 then none else ratToFloatCodeOp B mode true n d prec
+  | "f.from.rbig.code", [bs, ms, a, b] => do
+    let B ← parseBase bs; let mode ← Mode.parse ms; let n ← parseInt a; let d ← parseNat b
+    if d = 0 then none else pure (fbigFromRatCodeOp B mode false n d)
+  | "f.from.relaxed.code", [bs, ms, a, b] => do
+    let B ← parseBase bs; let mode ← Mode.parse ms; let n ← parseInt a; let d ← parseNat b
+    if d = 0 then none else pure (fbigFromRatCodeOp B mode true n d)
   | "r.to_f32", [a, b] => do let n ← parseInt a; let d ← parseNat b; if d = 0 then none else pure (ratToFloatOp "f32" rat32 f32Fixed n d false)
   | "r.to_f64", [a, b] => do let n ← parseInt a; let d ← parseNat b; if d = 0 then none else pure (ratToFloatOp "f64" rat64 f64Fixed n d false)
   | "r.to_f32.asis", [a, b] => do let n ← parseInt a; let d ← parseNat b; if d = 0 then none else pure (ratToFloatOp "f32" rat32 f32Fixed n d true)
